@@ -40,7 +40,7 @@
         for xy in 0..pow2(tile_size)
 /*G*/            invariant img0_ == old(self).out.data@, n_ == tile_size, n_ >= 1, n_ * n_ <= 16777216, n_ * n_ * n_ <= 68719476736, wwf(self), self.tile_sizes == old(self).tile_sizes, self.image_size == old(self).image_size, self.out == old(self).out, t_ == t0(self),
 /*G*/                cx_ == tile.corner.x, cy_ == tile.corner.y, cz_ == tile.corner.z, in_root(t_, cx_, cy_, n_), cx_ + n_ <= 16777216, cy_ + n_ <= 16777216, cz_ + n_ <= 16777216,
-/*G*/                n_ == last_size(self), index == self.scratch.columns@.len() * n_,
+/*G*/                n_ == last_size(self), index == self.scratch.columns@.len() * n_, tile_pre(img0_, t_, cx_, cy_, cz_, n_),
 /*G*/                l1_inv(self.scratch, cmap_, xy as int, img0_, t_, cx_, cy_, cz_, n_),
         {
             let i = xy % tile_size;
@@ -48,7 +48,7 @@
 /*G*/            proof { lemma_q(t_, cx_, cy_, n_, xy as int); }
             let o = self.tile_sizes.pixel_offset(tile.add(Vector2::new(i, j)));
             let zmax = to_u32(tile.corner.z + tile_size);
-/*G*/            proof { assert(o == qoff(t_, cx_, cy_, n_, xy as int)); }
+/*G*/            proof { assert(o == qoff(t_, cx_, cy_, n_, xy as int)); assert(pre_ok(img0_[off(t_, qx(cx_, n_, xy as int), qy(cy_, n_, xy as int))], cz_, n_)); }
             if !(self.out.data[o].depth >= zmax) {   // R-continue
 /*G*/                let ghost nc_ = self.scratch.columns@.len() as int;
 /*G*/                let ghost sc0_ = self.scratch;
@@ -96,8 +96,8 @@
 /*G*/                            assert(sc.x@[nc_ * n_ + k] == f_of((cx_ + i) as usize));
 /*G*/                        }
 /*G*/                    }
-/*G*/                    assert forall|q: int| 0 <= q < xy + 1 implies (#[trigger] cmap_[q] == -1 && img0_[qoff(t_, cx_, cy_, n_, q)].depth >= cz_ + n_)
-/*G*/                        || (0 <= cmap_[q] < sc.columns@.len() && sc.columns@[cmap_[q]] == q && img0_[qoff(t_, cx_, cy_, n_, q)].depth < cz_ + n_) by {
+/*G*/                    assert forall|q: int| 0 <= q < xy + 1 implies (#[trigger] cmap_[q] == -1 && img0_[qoff(t_, cx_, cy_, n_, q)].depth >= cz_ + n_ + 1)
+/*G*/                        || (0 <= cmap_[q] < sc.columns@.len() && sc.columns@[cmap_[q]] == q && img0_[qoff(t_, cx_, cy_, n_, q)].depth == 0) by {
 /*G*/                        if q < xy { assert(cmap_[q] == cmap_.drop_last()[q]); if cmap_[q] != -1 { assert(sc.columns@[cmap_[q]] == sc0_.columns@[cmap_[q]]); } }
 /*G*/                    }
 /*G*/                    assert forall|c: int| 0 <= c < sc.columns@.len() implies 0 <= #[trigger] sc.columns@[c] < xy + 1 && cmap_[sc.columns@[c] as int] == c by {
@@ -113,8 +113,8 @@
 /*G*/            proof {
 /*G*/                if cmap_.len() == xy {
 /*G*/                    cmap_ = cmap_.push(-1);
-/*G*/                    assert forall|q: int| 0 <= q < xy + 1 implies (#[trigger] cmap_[q] == -1 && img0_[qoff(t_, cx_, cy_, n_, q)].depth >= cz_ + n_)
-/*G*/                        || (0 <= cmap_[q] < self.scratch.columns@.len() && self.scratch.columns@[cmap_[q]] == q && img0_[qoff(t_, cx_, cy_, n_, q)].depth < cz_ + n_) by {
+/*G*/                    assert forall|q: int| 0 <= q < xy + 1 implies (#[trigger] cmap_[q] == -1 && img0_[qoff(t_, cx_, cy_, n_, q)].depth >= cz_ + n_ + 1)
+/*G*/                        || (0 <= cmap_[q] < self.scratch.columns@.len() && self.scratch.columns@[cmap_[q]] == q && img0_[qoff(t_, cx_, cy_, n_, q)].depth == 0) by {
 /*G*/                        if q < xy { assert(cmap_[q] == cmap_.drop_last()[q]); }
 /*G*/                    }
 /*G*/                }
